@@ -279,7 +279,7 @@ def de_cases(draw, tier):
     npop = draw(st.integers(max(dim, lab.min_npop(strat)), 9))
     c = dict(solver=kind, strategy=strat, dim=dim, npop=npop, seed=draw(st.integers(0, 2 ** 20)),
              CR=draw(st.sampled_from([0.0, 1.0, 0.9, 0.5, 0.2, 0.7])), F=draw(st.sampled_from([0.8, 0.5, 1.0, 0.3, 1.5])),
-             cost=draw(lab.cost_specs(dim, families=('quad', 'plateau', 'plateau', 'cos', 'abs'), rets=('float',))),
+             cost=draw(lab.cost_specs(dim, families=('quad', 'plateau', 'plateau', 'cos', 'abs', 'nanhalf'), rets=('float',))),
              gens=draw(st.integers(2, 8 if tier == 'quick' else 20)))
     lo = draw(st.lists(finite_floats(-4, 0), min_size=dim, max_size=dim))
     c['init'] = dict(lo=lo, hi=[l + draw(st.sampled_from([1.0, 3.0, 6.0])) for l in lo])
@@ -362,7 +362,8 @@ def run_de(case, ctx, stats=None):
             else:
                 rejected += 1
                 if et == old_en[i]: ties += 1
-                ctx.expect(new_m == old_pop[i] and new_e == old_en[i], 'C08.de_selection',
+                if et != et or old_en[i] != old_en[i]: ctx.label('selection-with-nan-energy')
+                ctx.expect(new_m == old_pop[i] and (new_e == old_en[i] or (new_e != new_e and old_en[i] != old_en[i])), 'C08.de_selection',
                            lambda: dict(strategy=name, solver=kind, member=i, note='member replaced by a trial that is not strictly better',
                                         trial_energy=et, old_energy=old_en[i], tie=(et == old_en[i])))
     ctx.label('solver:' + kind, 'strategy:' + name, 'CR:%s' % CR)
